@@ -20,6 +20,18 @@ theorem C01_sound_vec {α} (sz : Nat) (e : α → Bytes) (d : Dec α) (hs : Soun
 /-- `consensus_decode_sized_vec` (count known from context) -/
 theorem C01_sound_sized_vec {α} (sz : Nat) (e : α → Bytes) (d : Dec α) (hs : Sound e d) (n : Nat) :
     Sound (encSized e) (sizedVec sz d n) := sound_sized sz e d hs n
+theorem C01_sound_string (valid : Bytes → Bool) : Sound encString (stringDec valid) := by
+  intro b x r h
+  unfold stringDec at h
+  obtain ⟨bs, r1, h1, h2⟩ := bind_some h
+  split at h2
+  · obtain ⟨rfl, rfl⟩ := pure_some h2
+    have := sound_vec sizes.u8 (fun b => [b]) u8 sound_u8 _ _ _ h1
+    rw [this]
+    simp only [encVec, encString, List.append_assoc]
+    congr 2
+    exact flatten_singletons' bs
+  · exact (fail_some h2).elim
 theorem C01_sound_txin : Sound encTxIn txin := sound_txin
 theorem C01_sound_target : Sound encTarget target := sound_target
 theorem C01_sound_txout : Sound encTxOut txout := sound_txout
